@@ -152,9 +152,10 @@ let eval inp =
   | "N" :: _k :: s :: rest -> eval_session (s, rest)
   | _ -> "?"
 
+(* "<0|1> <list>", decoded (the comparison is on the bytes, not on how the text writes them) *)
 let parse_split out =
   match words out with
-  | [ok; fs] -> Some (unhexs fs, ok = "1")
+  | [("0" | "1") as ok; fs] -> (try Some (unhexs fs, ok = "1") with _ -> None)
   | _ -> None
 
 (* wording of a session failure (not the decision, which is M.session_ok) *)
@@ -213,11 +214,11 @@ let spec prop inp out =
   match prop, words (unus inp) with
   | "C16", ["S"; s] ->
     let (fs, ok) = M.ref_split (unhex s) in
-    if out = b01 ok ^ " " ^ hexs fs then None
+    if parse_split out = Some (fs, ok) then None
     else Some ("reference tokenizer gives " ^ b01 ok ^ " " ^ hexs fs)
   | "C16", ("N" :: _ :: s :: rest) -> spec_session (s, rest, out)
   | "C15", ["R"; ss] ->
-    if out = "1 " ^ hexs (unhexs ss) then None else Some "Split(Join(ss)) differs from (ss, true)"
+    if parse_split out = Some (unhexs ss, true) then None else Some "Split(Join(ss)) differs from (ss, true)"
   | "C15", ["Q"; s] ->
     let sb = unhex s in
     if List.mem M.N0 sb then None else
